@@ -123,7 +123,9 @@ func (srv *Session) consumeSingleCommand(ctx context.Context, reader *buffer.Rea
 	srv.wg.Done()
 	verifPoint("cmd.done", conn)
 	if errors.Is(err, io.EOF) {
-		return nil
+		// NOTE: the connection has been terminated or closed, messages which
+		// have been read ahead must not be processed any more.
+		return io.EOF
 	}
 
 	return err
